@@ -171,6 +171,57 @@ fn vk_rf_repr(neg: bool, n: u64, e1: usize, d: u16, e2: usize) -> Repr {
     }
 }
 
+// Stubs (Kani only) for the four dashu-int operations `to_f32`/`to_f64` call on their operands.  dashu-int is not the
+// code under test here (its shifts and divisions are the subject of C09/C02 units).  Each stub is the *inline-operand
+// arm of the real operation, verbatim* (`shift_ops::repr::shl_dword` first arm, `div_ops::repr::div_rem_dword`), with
+// every heap-operand arm replaced by a panic, i.e. by the proof obligation that the arm is unreachable for the inputs
+// of the harness (all operands and results < 2^128).  Why: the inline/heap tag and the shift amount of a shifted operand
+// are not constants for CBMC (they come from `leading_zeros` of symbolic data), so without the stubs it symbolically
+// executes the multi-word division (divide-and-conquer, Karatsuba, Toom-3: > 40 min in symex, never finished) and the
+// spilling shifts (allocations of symbolic size: > 13 GB, out of memory) although they are unreachable.
+// Trusted: that these bodies are the inline arms of the real operations (read off integer/src/shift_ops.rs, div_ops.rs).
+#[cfg(kani)]
+fn vk_rf_stub_div_rem<'r>(lhs: UBig, rhs: &'r UBig) -> (UBig, UBig)
+where
+    'r: 'r, // early-bound like the lifetime parameter of the impl (Kani compares the number of generics)
+{
+    let a: u128 = lhs.try_into().unwrap(); // a heap operand fails the harness
+    let b: u128 = rhs.try_into().unwrap();
+    match a.checked_div(b) {
+        Some(res) => (UBig::from(res), UBig::from(a % b)),
+        None => panic!(),
+    }
+}
+#[cfg(kani)]
+fn vk_rf_shl_inline(a: u128, rhs: usize) -> u128 {
+    if a == 0 {
+        return 0;
+    }
+    assert!(rhs <= a.leading_zeros() as usize); // a spilling shift fails the harness
+    a << rhs
+}
+#[cfg(kani)]
+fn vk_rf_stub_shl_ubig(x: UBig, rhs: usize) -> UBig {
+    let a: u128 = x.try_into().unwrap();
+    UBig::from(vk_rf_shl_inline(a, rhs))
+}
+#[cfg(kani)]
+fn vk_rf_stub_shl_ubig_ref<'a>(x: &'a UBig, rhs: usize) -> UBig
+where
+    'a: 'a,
+{
+    let a: u128 = x.try_into().unwrap();
+    UBig::from(vk_rf_shl_inline(a, rhs))
+}
+#[cfg(kani)]
+fn vk_rf_stub_shl_ibig_ref<'a>(x: &'a IBig, rhs: usize) -> IBig
+where
+    'a: 'a,
+{
+    let a: u128 = x.unsigned_abs().try_into().unwrap();
+    IBig::from_parts(x.sign(), UBig::from(vk_rf_shl_inline(a, rhs)))
+}
+
 /// Which part of the input space a harness looks at.
 #[derive(Clone, Copy, PartialEq)]
 enum VkRfMode {
@@ -223,6 +274,10 @@ fn vk_ratio_to_float_k_f32_u32_u8() {
 
 #[cfg_attr(kani, kani::proof)]
 #[cfg_attr(kani, kani::unwind(1))]
+#[cfg_attr(kani, kani::stub(<UBig as DivRem<&UBig>>::div_rem, vk_rf_stub_div_rem))]
+#[cfg_attr(kani, kani::stub(<UBig as core::ops::Shl<usize>>::shl, vk_rf_stub_shl_ubig))]
+#[cfg_attr(kani, kani::stub(<&UBig as core::ops::Shl<usize>>::shl, vk_rf_stub_shl_ubig_ref))]
+#[cfg_attr(kani, kani::stub(<&IBig as core::ops::Shl<usize>>::shl, vk_rf_stub_shl_ibig_ref))]
 #[cfg_attr(not(kani), test)]
 fn vk_ratio_to_float_k_probe_u16() {
     let n: u16 = any();
